@@ -23,3 +23,9 @@ def oracle(c, o):
     if suffix in ALLOWED or suffix in ("raises", "harness-exception"):
         return r
     return None
+
+
+def generated(tier):
+    """source-derived obligations (G6): the potential-outcome tables re-read from the source and compared with the model's"""
+    from ..translate.tables import obligations
+    return obligations("C16")
